@@ -19,6 +19,9 @@ INV = ["LawPartition", "LawScaleMonotone", "LawOneStatus", "LawMustSubsetMay"]
 SQ = "[ring |-> <<<<-2,-2>>,<<4,-2>>,<<4,3>>,<<-2,3>>>>, zlo |-> -1, zhi |-> 1]"
 SQCW = "[ring |-> <<<<-2,3>>,<<4,3>>,<<4,-2>>,<<-2,-2>>>>, zlo |-> 0, zhi |-> 2]"
 ELL = "[ring |-> <<<<-5,-5>>,<<5,-5>>,<<5,0>>,<<0,0>>,<<0,5>>,<<-5,5>>>>, zlo |-> -2, zhi |-> 2]"
+# a small area that one object at the origin covers completely: an earlier area left with no stray point at all, followed by an area that
+# has some (seeded C12_r10: an "early exit" that leaves the whole method instead of the loop over the boxes of one area)
+TINY = "[ring |-> <<<<-1,-1>>,<<1,-1>>,<<1,1>>,<<-1,1>>>>, zlo |-> 0, zhi |-> 0]"
 RANGES = dict(PX=(-6, 6), PY=(-6, 6), PZ=(-2, 2))
 _CLOUD = None
 _MGR = {}
@@ -268,7 +271,7 @@ def trace_events(seed, n):
 
 def run(ctx: Ctx):
     consts = dict(PX="-6..6", PY="-6..6", PZ="-2..2", Centres="{<<0,0,0>>,<<3,4,0>>,<<-3,0,4>>}", Sizes="{<<2,4,2>>,<<1,6,4>>,<<4,4,2>>}",
-                  Dirs="{<<5,0>>,<<0,5>>,<<3,4>>,<<4,3>>,<<-4,3>>,<<-3,-4>>}", Scales="{<<1,1>>,<<3,2>>,<<2,1>>}", Areas="{%s,%s,%s}" % (SQ, SQCW, ELL),
+                  Dirs="{<<5,0>>,<<0,5>>,<<3,4>>,<<4,3>>,<<-4,3>>,<<-3,-4>>}", Scales="{<<1,1>>,<<3,2>>,<<2,1>>}", Areas="{%s,%s,%s,%s}" % (SQ, SQCW, ELL, TINY),
                   VisSet='{"full","partial","none"}', T0T1="{<<10,10>>,<<10,20>>}", MinPtsSet="{1,3,12}", MaxObjs="2", Sample="8" if ctx.quick else "60",
                   FarDists="{0, 37, 100, 101, 150, 300}")
     res = T.run_model("MC_Sensing", "MCSE_" + ctx.pid, consts, invariants=INV, model_values=(), tlc_kwargs=dict(dump=True, allow_violation=False, seed=ctx.seed, timeout=3000))
